@@ -1,5 +1,6 @@
 import HierArc.Drv.C06
 import HierArc.Model.Gof
+import HierArc.Model.Lens
 namespace HierArc.Drv.C14
 open Lean HierArc.Drv HierArc.Gauss HierArc.Gof HierArc.Drv.C06
 
@@ -27,10 +28,29 @@ def ddtdd (j : Json) : R Json := do
   let r := ddtDdModelPrediction (fun (k : Fin N) => a.getD k.val nan) (fun (k : Fin N) => b.getD k.val nan)
   pure (Json.mkObj [("ddt_mean", jf r.1), ("ddt_std", jf r.2.1), ("dd_mean", jf r.2.2.1), ("dd_std", jf r.2.2.2)])
 
+/-- op `C14.ddtdd_draws`: {"ddt0", "dd0", "draws": [[γ, λ, κ] …]} — the N displaced pairs are built by the model's
+    own `Lens.displace` (C03) from the drawn parameters, then `ddtDdModelPrediction` (theorem
+    `scatter_ddt_dd_moments` reads the same composition over ℝ) -/
+def ddtddDraws (j : Json) : R Json := do
+  let ddt0 ← getF j "ddt0"
+  let dd0 ← getF j "dd0"
+  let ds ← arr (← field j "draws")
+  let trip ← ds.mapM fun d => do
+    match ← fls d with
+    | [g, l, k] => pure (g, l, k)
+    | _ => throw "bad-draw"
+  let N := trip.length
+  let nan : Float := 0.0 / 0.0
+  let at' (k : Fin N) := trip.getD k.val (nan, nan, nan)
+  let r := ddtDdModelPrediction
+    (fun (k : Fin N) => (HierArc.Lens.displace ddt0 dd0 (at' k).1 (at' k).2.1 (at' k).2.2 0.0).1)
+    (fun (k : Fin N) => (HierArc.Lens.displace ddt0 dd0 (at' k).1 (at' k).2.1 (at' k).2.2 0.0).2.1)
+  pure (Json.mkObj [("ddt_mean", jf r.1), ("ddt_std", jf r.2.1), ("dd_mean", jf r.2.2.1), ("dd_std", jf r.2.2.2)])
+
 /-- op `C14.chi2` -/
 def chi2 (j : Json) : R Json := do
   pure (Json.mkObj [("chi2", jf (reducedChi2 (← getF j "logL") (← (← field j "num_data").getNat?)))])
 
-def ops : List (String × (Json → R Json)) := [("C14.report", report), ("C14.ddtdd", ddtdd), ("C14.chi2", chi2)]
+def ops : List (String × (Json → R Json)) := [("C14.report", report), ("C14.ddtdd", ddtdd), ("C14.ddtdd_draws", ddtddDraws), ("C14.chi2", chi2)]
 
 end HierArc.Drv.C14
